@@ -69,7 +69,9 @@ func cloneScenario(sc *Scenario) *Scenario {
 
 func TestC14Differential(t *testing.T) {
 	st := NewStats("C14", "differential", "each generated lifecycle scenario (1-2 hand-made revisions with local/delegated phases; rollout, probe changes, drift, pause, archive, delete incl. orphan, blocking finalizers, graceful deletion, GC) is executed twice in lock step: with the objects inline, and with a random non-empty subset of phases stored in pre-created ObjectSlices (split over two slices); after every step the per-step write sequence on managed objects and the projected state (managed objects with owners/revision/content; ObjectSet/ObjectSetPhase conditions, controllerOf, revision, finalizers) must be identical; non-trivial = scenario contains a teardown (archive/delete) of a set with a sliced non-empty phase")
-	run := func(c *diffCase) (map[string]bool, error) { return RunDifferential("C14", "sliced", c.A, c.B, nil, nil) }
+	run := func(c *diffCase) (map[string]bool, error) {
+		return RunDifferential("C14", "sliced", c.A, c.B, nil, nil)
+	}
 	CheckOrReplay(t, st, func(data []byte) (any, error) {
 		var c diffCase
 		if err := json.Unmarshal(data, &c); err != nil {
